@@ -30,6 +30,9 @@ LINE_METHODS = {"read", "_read", "write", "_write", "recv_message_from_queue", "
                 "get_message", "get_postprocess_recv_message", "notify_postprocess_message", "close", "set_closed_state"}
 
 
+LOCK_ATTRS = set()
+
+
 def _calls(fn):
     try:
         tree = ast.parse(textwrap.dedent(inspect.getsource(fn)))
@@ -37,6 +40,11 @@ def _calls(fn):
         return set()
     out = set()
     for n in ast.walk(tree):
+        if isinstance(n, ast.With):
+            for it in n.items:
+                if isinstance(it.context_expr, ast.Attribute) and "lock" in it.context_expr.attr:
+                    out.add("acquire")                     # `with <x>.<lock>:` blocks like acquire()
+                    LOCK_ATTRS.add(it.context_expr.attr)
         if isinstance(n, ast.Call):
             f = n.func
             nm = f.attr if isinstance(f, ast.Attribute) else (f.id if isinstance(f, ast.Name) else None)
@@ -93,7 +101,8 @@ _BUILT = {}
 
 def build(lines=False):
     """-> dict of coroutinised subclasses, keyed by the real class"""
-    key = bool(lines)
+    line_methods = LINE_METHODS if lines is True else set(lines or ())       # True: the default set; or an explicit list
+    key = tuple(sorted(line_methods))
     if key in _BUILT:
         return _BUILT[key]
     names = yielding_names()
@@ -104,7 +113,8 @@ def build(lines=False):
         for k, fn in _methods(cls).items():
             plain = _plain(cls, k)
             if plain in names:
-                body[k] = CS.coroutinize(fn, names, lines=(lines and plain in LINE_METHODS), mangle=cls.__name__, rebind={"time": CoTime})
+                body[k] = CS.coroutinize(fn, names, lines=(plain in line_methods), mangle=cls.__name__, rebind={"time": CoTime},
+                                               locks=LOCK_ATTRS)
         return body
     bodies = {cls: co_body(cls) for cls in CLASSES}
     for cls in CLASSES:
@@ -227,6 +237,11 @@ class CoNode:
             t.server_sock, t.server_selector = CoSocket(), CoSelector()
             t.server_selector.register(t.server_sock, selectors.EVENT_READ)
         t._recv_data_available, t.write_mode_on, t.read_mode_on, t.lock = HEvent(), HEvent(), HEvent(), HLock()
+        for name in LOCK_ATTRS:                       # every lock the current source takes with `with`
+            if isinstance(getattr(t, name, None), type(T.threading.Lock())):
+                setattr(t, name, HLock())
+            if isinstance(getattr(a, name, None), type(T.threading.Lock())):
+                setattr(a, name, HLock())
         t.is_connected = True
         t.events = []
         self.sel.register(self.sock, selectors.EVENT_READ)
